@@ -4,7 +4,7 @@
 //verif:native-timeout 120000
 //verif:assume purge drivers end to end over in-memory stores (as C14's end-to-end harness: real PurgeBuildReverseIndex / PurgeDeleteUnused, openKV routed to the in-memory KV model symbolically, real pebble natively); faults: the solver picks one store call (any call on the metadata or blob store, reads and listings included) of the index build or of delete-unused that fails once (transient), or the mutating call at which the index build dies (fail-stop, landed or not) after which the build is resumed with --resume on a fresh local KV store
 //verif:assume world as in C14: two committed bundles sharing a file, the blobs of a deleted bundle, one bundle uploaded after the index build; index chunk size 2 (so several chunks exist); one variant with 12 keys at one key per chunk and a crash after the tenth chunk; listings returning full pages or at most two keys per page; in the crash variants the late bundle's blobs are written before the resume (an interrupted upload) and the bundle is committed after it
-//verif:cover VerifC13PurgeFaults upload-between-crash-and-resume short-listing-pages resumed-after-ten-chunks fault-in-build fault-in-delete build-crashed-and-resumed reported-failure-retried late-upload-reuses-orphaned-blobs two-repositories
+//verif:cover VerifC13PurgeFaults upload-between-crash-and-resume short-listing-pages resumed-after-ten-chunks fault-in-build fault-in-delete build-crashed-and-resumed reported-failure-retried late-upload-reuses-orphaned-blobs two-repositories extra-context
 package core
 
 import (
@@ -49,8 +49,8 @@ func VerifC13PurgeFaults() {
 		vCover("resumed-after-ten-chunks")
 	}
 	build := func(dir string, resume bool) error {
-		_, err := PurgeBuildReverseIndex(stores, WithPurgeLogger(zap.NewNop()), WithPurgeLocalStore(vKVDir(dir)),
-			WithPurgeIndexChunkSize(chunk), WithPurgeParallel(1), WithPurgeResumeIndex(resume))
+		_, err := PurgeBuildReverseIndex(stores, append([]PurgeOption{WithPurgeLogger(zap.NewNop()), WithPurgeLocalStore(vKVDir(dir)),
+			WithPurgeIndexChunkSize(chunk), WithPurgeParallel(1), WithPurgeResumeIndex(resume)}, w.extraOpts()...)...)
 		return err
 	}
 	lateContent := "uploaded-after-the-index"
@@ -113,7 +113,7 @@ func VerifC13PurgeFaults() {
 	if mode == 1 {
 		cr.install()
 	}
-	_, derr := PurgeDeleteUnused(stores, WithPurgeLogger(zap.NewNop()), WithPurgeLocalStore(vKVDir("kv-delete")), WithPurgeParallel(1))
+	_, derr := PurgeDeleteUnused(stores, append([]PurgeOption{WithPurgeLogger(zap.NewNop()), WithPurgeLocalStore(vKVDir("kv-delete")), WithPurgeParallel(1)}, w.extraOpts()...)...)
 	if mode == 1 {
 		cr.revive()
 		vAssume(cr.crashed)
